@@ -332,7 +332,7 @@ func runC13(cfg *Cfg, rec *ev.Rec) {
 		}
 		item++
 	}
-	n := cfg.n(24000, 900000)
+	n := cfg.n(24000, 450000)
 	for i := 0; i < n; i++ {
 		_, priv, pub, msg, sig, v := mk()
 		h := hashes[rng.Intn(len(hashes))]
